@@ -360,43 +360,61 @@ def run(ctx):
                            % unparse(e_), construct='add_context_category: ' + short(st_, 60))
     if not n_idx and None not in idx_names:
         ctx.unknown('M2d', m, acf, 'no insert position found', construct='add_context_category: insert positions')
-    # M2e: which position each placement option computes
+    # M2e: which position each placement option computes -- per path, at the place where the category is inserted
     _sx = __import__('pxv.symex', fromlist=['x'])
     n_pl = 0
-    for st_ in ast.walk(acf):
-        if not (isinstance(st_, ast.Assign) and any(isinstance(t_, ast.Name) and t_.id in idx_names for t_ in st_.targets)):
-            continue
-        for cs_, e_ in _sx._split_ifexp(st_.value):
-            facts = set()
-            for t_, p_ in list(atomic_facts(st_)) + list(cs_):
-                for a_, ap_ in _sx._atoms(t_, p_):
-                    facts.add((unparse(a_), ap_))
-            for opt, off in (('insert_after', 1), ('insert_before', 0)):
-                if (opt, True) not in facts:
-                    continue
-                lst = None
-                inlist = None
-                for t_, p_ in facts:
-                    mm = re.match(r'%s (not in|in) (.+)$' % opt, t_)
-                    if mm:
-                        lst = mm.group(2)
-                        inlist = (mm.group(1) == 'in') == p_
-                if inlist is None:
-                    continue
-                n_pl += 1
-                txt = unparse(e_).replace(' ', '')
-                idx = '%s.index(%s)' % (lst, opt)
-                if inlist:
-                    want = [idx + '+1', '1+' + idx] if off else [idx]
-                else:
-                    want = ['len(%s)' % lst] if off else ['0']
-                ctx.decide('M2e', txt in [w_.replace(' ', '') for w_ in want], m, st_,
-                           '%s, name %s: position %s' % (opt, 'found' if inlist else 'not found', unparse(e_)),
-                           'with %s=<a name %s the list> the new category is inserted at %s, not at %s: it lands on the wrong '
-                           'side of the named category, so lookups prefer the wrong definition (a fall-back category '
-                           'registered "after" the defaults shadows them: \\section*[..]{..} is parsed with the fall-back '
-                           'signature)' % (opt, 'in' if inlist else 'not in', unparse(e_), want[0]),
-                           construct='add_context_category: %s %s' % (opt, 'found' if inlist else 'not found'))
+
+    def _is_insert_site(c_):
+        if any(isinstance(p_, ast.Lambda) for p_ in parents(c_)):
+            return False
+        if call_name(c_) == 'insert' and call_recv(c_) is not None and 'category_list' in unparse(call_recv(c_)):
+            return True
+        return isinstance(c_.func, ast.Name) and c_.func.id not in dir(__import__('builtins')) and c_.args and \
+            'category_list' in unparse(c_.args[0])
+    try:
+        ics = _sx.Walker(is_sink=_is_insert_site).run(acf)
+    except _sx.TooManyPaths:
+        ics = []
+    seen_pl = set()
+    for cs in ics:
+        atoms = {(unparse(a_), ap_) for t_, p_ in cs.conds for a_, ap_ in _sx._atoms(t_, p_)}
+        # the position: first argument of a direct insert, or the index variable a stored lambda closes over
+        if call_name(cs.sub) == 'insert':
+            posv = cs.sub.args[0] if cs.sub.args else None
+        else:
+            posv = None
+            for nm_ in sorted(n_ for n_ in idx_names if n_):
+                posv = cs.env.get(nm_)
+                if posv is None:
+                    posv = ast.Name(id=nm_, ctx=ast.Load())     # an opaque call result: expanded through its definition
+        for opt, off in (('insert_after', 1), ('insert_before', 0)):
+            if (opt, True) not in atoms:
+                continue
+            if opt == 'insert_after' and ('insert_before', True) in atoms:
+                continue
+            lst, inlist = None, None
+            for t_, p_ in atoms:
+                mm = re.match(r'%s (not in|in) (.+)$' % opt, t_)
+                if mm:
+                    lst = mm.group(2)
+                    inlist = (mm.group(1) == 'in') == p_
+            if inlist is None or posv is None:
+                continue
+            txt = unparse(_sx.expand(posv, cs.env)).replace(' ', '')
+            idx = '%s.index(%s)' % (lst, opt)
+            want = ([idx + '+1', '1+' + idx] if off else [idx]) if inlist else (['len(%s)' % lst] if off else ['0'])
+            key_ = (opt, inlist, txt)
+            if key_ in seen_pl:
+                continue
+            seen_pl.add(key_)
+            n_pl += 1
+            ctx.decide('M2e', txt in [w_.replace(' ', '') for w_ in want], m, cs.node,
+                       '%s, name %s: position %s' % (opt, 'found' if inlist else 'not found', txt),
+                       'with %s=<a name %s the list> the new category is inserted at %s, not at %s: it lands on the wrong '
+                       'side of the named category (or at the wrong end of the list), so lookups prefer the wrong definition '
+                       '(a fall-back category registered "after" the defaults shadows them: \\section*[..]{..} is parsed with '
+                       'the fall-back signature)' % (opt, 'in' if inlist else 'not in', txt, want[0]),
+                       construct='add_context_category: %s %s' % (opt, 'found' if inlist else 'not found'))
     if n_pl < 4:
         ctx.unknown('M2e', m, acf, 'only %d of the 4 placement cases (insert_before/insert_after x found/not found) recognised'
                     % n_pl, construct='add_context_category: placement cases')
